@@ -287,6 +287,12 @@ func bytesFailure(o decObs) string {
 			return "typed-accepts-what-generic-rejects"
 		}
 	}
+	if o.adG.ok() {
+		g := o.ad.toGo(0)
+		if gd := guard(func() error { _ = g.Validate(); _ = g.PreviousCid(); return nil }); gd.panicked != "" {
+			return "validate-or-previouscid-panics-on-decoded-ad"
+		}
+	}
 	if o.adG.ok() && allUTF8(o.ad) {
 		if m := reencodes(adOps(o.ad)); m != "" {
 			return "decoded-ad-does-not-reencode"
@@ -935,4 +941,100 @@ func doDeep(c *vlib.Ctx, codec string, verbose bool) {
 func runDeep(c *vlib.Ctx) {
 	doDeep(c, "cbor", false)
 	doDeep(c, "json", false)
+}
+
+// ---- remaining entry points of ingest/schema the property reaches
+
+// a node that claims the typed prototype without being a bindnode node
+type impostor struct {
+	datamodel.Node
+	proto datamodel.NodePrototype
+}
+
+func (i impostor) Prototype() datamodel.NodePrototype { return i.proto }
+
+func runEntryPoints(c *vlib.Ctx) {
+	runToNodeGuard(c)
+	// 1. a CID whose codec has no registered decoder, or a decoder that cannot feed the schema
+	//    (raw): BytesTo* return an error, never panic
+	blk, _ := hexBytes("a267456e747269657380644e657874d82a450001550000")
+	for _, codec := range []uint64{0x55, 0x70, 0x0200, 0x72, 0xffffff} {
+		cc := cid.NewCidV1(codec, mustSum("x"))
+		for name, f := range map[string]func() error{
+			"ad":    func() error { _, err := schema.BytesToAdvertisement(cc, blk); return err },
+			"chunk": func() error { _, err := schema.BytesToEntryChunk(cc, blk); return err },
+		} {
+			g := guard(f)
+			c.Eval()
+			c.Count("entry:codec")
+			if g.panicked != "" {
+				c.Fail(fmt.Sprintf("entry:codec:panic:%s:0x%x", name, codec), "BytesTo"+name+" panicked for a CID with codec "+fmt.Sprintf("0x%x", codec)+": "+g.panicked, nil)
+			} else if g.err == nil {
+				c.Fail(fmt.Sprintf("entry:codec:accepted:%s:0x%x", name, codec), "a DAG-CBOR block was decoded under a CID that names another codec", nil)
+			}
+		}
+	}
+	// 2. Unwrap* on a node that names the typed prototype but is not a typed node: an error
+	for name, f := range map[string]func() error{
+		"ad": func() error {
+			_, err := schema.UnwrapAdvertisement(impostor{basicnode.NewString("x"), schema.AdvertisementPrototype})
+			return err
+		},
+		"chunk": func() error {
+			_, err := schema.UnwrapEntryChunk(impostor{basicnode.NewString("x"), schema.EntryChunkPrototype})
+			return err
+		},
+		"ad-null":    func() error { _, err := schema.UnwrapAdvertisement(datamodel.Null); return err },
+		"chunk-null": func() error { _, err := schema.UnwrapEntryChunk(datamodel.Null); return err },
+		"ad-from-chunk-node": func() error {
+			n, _ := (schema.EntryChunk{}).ToNode()
+			_, err := schema.UnwrapAdvertisement(n)
+			return err
+		},
+	} {
+		g := guard(f)
+		c.Eval()
+		c.Count("entry:unwrap-foreign")
+		if g.panicked != "" {
+			c.Fail("entry:unwrap:panic:"+name, "Unwrap panicked: "+g.panicked, nil)
+		} else if g.err == nil {
+			c.Fail("entry:unwrap:accepted:"+name, "Unwrap accepted a node that is not of the schema", nil)
+		}
+	}
+}
+
+// 3. ToNode's panic guard: when bindnode panics inside Wrap (here provoked by pointing the
+//    exported prototype variables at the wrong type, and at nil; restored afterwards), ToNode
+//    hands back an error instead of panicking (recover + toError)
+func runToNodeGuard(c *vlib.Ctx) {
+	adP, chP := schema.AdvertisementPrototype, schema.EntryChunkPrototype
+	defer func() { schema.AdvertisementPrototype, schema.EntryChunkPrototype = adP, chP }()
+	ad := schema.Advertisement{Provider: "p", Entries: schema.NoEntries}
+	ch := schema.EntryChunk{}
+	for _, variant := range []string{"swapped", "nil"} {
+		if variant == "swapped" {
+			schema.AdvertisementPrototype, schema.EntryChunkPrototype = chP, adP
+		} else {
+			schema.AdvertisementPrototype, schema.EntryChunkPrototype = nil, nil
+		}
+		for name, f := range map[string]func() error{
+			"ad":    func() error { _, err := ad.ToNode(); return err },
+			"chunk": func() error { _, err := ch.ToNode(); return err },
+		} {
+			g := guard(f)
+			c.Eval()
+			c.Count("entry:tonode-guard")
+			if g.panicked != "" {
+				c.Fail("entry:tonode:panic:"+name+":"+variant, "ToNode panicked instead of returning an error: "+g.panicked, nil)
+			} else if g.err == nil {
+				c.Fail("entry:tonode:accepted:"+name+":"+variant, "ToNode succeeded against a "+variant+" prototype", nil)
+			}
+		}
+	}
+}
+
+func hexBytes(s string) ([]byte, error) {
+	b := make([]byte, len(s)/2)
+	_, err := fmt.Sscanf(s, "%x", &b)
+	return b, err
 }
